@@ -206,7 +206,9 @@ def gen_rich_doc(rng):
     specials = ["!xref a", "!required", "!call:builtins.dict {x: 1}", "!bind:builtins.dict {y: !force 2}", "!eval '1 + 1'", "f'{1}x'", "!path [a, b]",
                 "!path:parent [c]", "!import os.path", "!null", "!metadata{{'k': 1, 'priority': 1}} 7", "!call:builtins.list [[1, 2]]", "!append [1]", "!prev a",
                 "!bind:os.path.split{{ 'delete': False }} {x: 1}", "!call:builtins.dict{{ 'delete': True, 'priority': 1 }} {x: 1}",
-                "!call:builtins.dict{{ 'delete': False, 'allow_new': False }} {x: !weak 1}"]
+                "!call:builtins.dict{{ 'delete': False, 'allow_new': False }} {x: !weak 1}",
+                # strings that only survive a dump when they are quoted (after an earlier scalar was written in unquoted mode)
+                "'x: y'", "' lead'", "'a #b'", "'*star'", "['[q', 'k: v']", "{'k: 1': 2}"]
     text = G.render(d)
     items = []
     for _ in range(rng.randint(0, 3)):
